@@ -77,3 +77,11 @@ theorem mapRes_ok {α β : Type} (f : α → Res β) (g : α → β) (h : ∀ a,
   | nil => rfl
   | cons a r ih => simp [mapRes, h, ih]
 end RustSem
+
+namespace RustSem
+/-- `iter.enumerate().find(|(_, x)| p(x))`: the first element satisfying `p`, with its index -/
+def enumFindFrom {α : Type} (p : α → Bool) (k : Nat) : List α → Option (Nat × α)
+  | [] => none
+  | a :: r => if p a then some (k, a) else enumFindFrom p (k + 1) r
+def enumFind {α : Type} (p : α → Bool) (l : List α) : Option (Nat × α) := enumFindFrom p 0 l
+end RustSem
